@@ -110,7 +110,7 @@ func (w *world) d15(o *c.Out) {
 	e := w.e
 	a, b := w.own[0].acct, w.own[1].acct // both on p0
 	run := func(variant string) {
-		line := "d15 variant=" + variant + " case=x7b7d"
+		line := "d15 v=2 variant=" + variant + " case=x7b7d"
 		da, err := w.deviceOrder(a, 12345)
 		if err != nil {
 			o.Case(line, "setup-failed:"+err.Error()+"\tuntouched")
